@@ -48,7 +48,7 @@ def plan(ctx):
     jobs.append(dict(module=B, cfg="MCBlockBuf_cov", kind="cov", cov=True, need=MUT))
     if not q:
         jobs.append(dict(module=B, cfg="MCBlockBuf_c02_t", kind="pos", workers=4, timeout=1700, heap="8g"))
-        jobs.append(dict(module=B, cfg="MCBlockBuf_c02_ts", kind="pos", workers=4, timeout=1700, heap="8g"))
+        jobs.append(dict(module=B, cfg="MCBlockBuf_emit_c02t", kind="emit", pre=2, nh=3, workers=2, timeout=1500))
     return dict(jobs=jobs, mode="c02", nh=12, maxlen=24,
                 random_scripts=280 if q else 10000, script_len=45 if q else 80,
                 judge_budget_s=40 if q else 600, parallel=3, validate_jobs=3 if q else 4, also_indirect=6)
